@@ -195,7 +195,7 @@ class C04(runner.Check):
   min_budget_runs = 120
   min_budget_s = 120
   probes = ['sched.blocked-on-lock', 'probe.rmw-window-entered', 'sched.policy.sticky',
-            'sched.policy.pct', 'sched.policy.targeted']
+            'sched.policy.pct', 'sched.policy.targeted', 'probe.over-delivering-algorithm']
 
   def gen(self, rng, idx, tier):
     backend = rng.choice(['ram'] * 5 + ['sqlmem'])
@@ -203,6 +203,9 @@ class C04(runner.Check):
         'backend': backend, 'algorithm': rng.choice(['GRID_SEARCH', 'GRID_SEARCH', 'SEQUENCE']),
         'space': 'int10', 'metrics': 1, 'recycle_s': 60.0, 'epoch': simclock.EPOCH,
     }
+    if cfg['algorithm'] == 'SEQUENCE':
+      # an algorithm that always delivers more than asked: the surplus is queued as REQUESTED trials
+      cfg['over'] = rng.choice([0, 0, 1, 2])
     profile = {'n_studies': 2, 'n_owners': 1, 'workers': 3, 'p_direct': 0.0}
     weights = {'SuggestTrials': 6, 'CreateTrial': 4, 'CompleteTrial': 3, 'AddTrialMeasurement': 1,
                'StopTrial': 1, 'UpdateMetadata': 1, 'CreateStudy': 1, 'CheckES': 1, 'M:pool': 2}
@@ -256,6 +259,8 @@ class C04(runner.Check):
         yield dict(plan, batch=plan['batch'][:i] + plan['batch'][i + 1:])
     if plan['cfg']['backend'] != 'ram':
       yield dict(plan, cfg=dict(plan['cfg'], backend='ram'))
+    if plan['cfg'].get('over'):
+      yield dict(plan, cfg=dict(plan['cfg'], over=0))
     yield from W.simplify_ops(plan)
     yield from W.simplify_ops(plan, field='batch')
 
@@ -332,6 +337,8 @@ class C04(runner.Check):
         res.bump('sched.blocked-on-lock', s.stats['blocked'])
       for _, why in s.trace:
         res.bump('preempt.' + why.split(':')[0].split('.')[0])
+      if cfg.get('over') and any(c['kind'] == 'SuggestTrials' for c in batch):
+        res.bump('probe.over-delivering-algorithm')
       nontrivial = conc.rmw_interleaved(s.trace)
       if nontrivial:
         res.bump('probe.rmw-window-entered')
